@@ -41,8 +41,9 @@ Part H  histories: for every hierarchy with n <= 2 (n = 3 in thorough; <= 2 base
         with the observation the same access gives on an untouched hierarchy; an unmerged
         search to depth 2 cross-checks the canonicalisation.
 
-Measured (16 workers; CPU seconds because the box was shared): quick 63 192 cases / 1.10 M reads,
-~310 core-s (~20 s wall on 16 idle cores); thorough 486 937 cases / 13.0 M reads, ~5 000 core-s (~5-6 min).
+Measured (16 workers; CPU seconds because the box was shared): quick 83 616 cases / 1.41 M reads,
+~390 core-s (~25 s wall on 16 idle cores; the n = 4 lists of part L ~70 core-s, part A ~17 core-s);
+thorough 522 543 cases / 18.2 M reads, ~5 500 core-s (~6 min).
 Failure identities are "<part>/<oracle clause>/<n or attribute>"; the smallest failing hierarchy is kept.
 
 Oracle (only what the statement fixes)
